@@ -246,6 +246,24 @@ func c09Faults() []c09Fault {
 			b.proj.Config.Sub("template-data").Set("mock-build-tags", "!nomocks")
 			b.level(lv).Sub("template-data").Set("mock-build-tags", 7)
 		}},
+		{Class: "schema-reject", Variant: "shared-custom-template-require-flag-differs", Levels: []string{""}, Apply: func(b *c09Base, _ string, _ *simrt.Plan) {
+			// two packages share one file:// template; one switches validation off (its data is
+			// fine anyway), the other keeps it on and carries data the schema rejects
+			b.proj.Aux["templates/probe.templ"] = probeTemplate
+			b.proj.Aux["templates/probe.templ.schema.json"] = `{"type": "object", "additionalProperties": false, "properties": {"owner": {"type": "string"}}}`
+			tpl := "file://" + world.RootPlaceholder + "/templates/probe.templ"
+			b.proj.Config.Set("formatter", "noop")
+			for i, q := range b.proj.Pkgs {
+				cfg := b.proj.Config.Sub("packages").Sub(c09Mod + "/" + q.Dir).Sub("config")
+				cfg.Set("template", tpl)
+				if i == b.target {
+					cfg.Sub("template-data").Set("not-in-schema", true)
+				} else {
+					cfg.Set("require-template-schema-exists", false)
+					cfg.Sub("template-data").Set("owner", "me")
+				}
+			}
+		}},
 		{Class: "bad-regex", Variant: "include", Levels: []string{"root", "package"}, Apply: func(b *c09Base, lv string, _ *simrt.Plan) {
 			regexSetup(b)
 			b.level(lv).Set("include-interface-regex", "(")
@@ -574,6 +592,12 @@ var c09YAMLShapes = []string{
 	"replace-type: [1, 2]\npackages:\n  example.com/w/a: {config: {all: true}}\n", "replace-type:\n  p:\n    T: \"notamap\"\npackages:\n  example.com/w/a: {config: {all: true}}\n",
 	"exclude-subpkg-regex: \"notalist\"\npackages:\n  example.com/w/a: {config: {all: true, recursive: true}}\n", "a: &a [*a]\n", "packages: &p\n  x: *p\n", "- just\n- a\n- list\n", "42\n", "null\n",
 	"packages:\n  ? [complex, key]\n  : {}\n", "packages:\n  example.com/w/a:\n    config:\n      all: true\n      all: false\n", "_anchors: {x: &x {all: true}}\npackages:\n  example.com/w/a:\n    config: *x\n",
+	"template-data: {k: \"scalar\"}\npackages:\n  example.com/w/a:\n    config:\n      all: true\n      template-data: {k: {nested: 1}}\n",
+	"template-data: {k: [1, 2]}\npackages:\n  example.com/w/a:\n    config: {all: true}\n    interfaces:\n      Store:\n        config:\n          template-data: {k: {nested: true}}\n",
+	"template-data: {k: null}\npackages:\n  example.com/w/a:\n    config:\n      all: true\n      template-data: {k: {a: {b: {c: 1}}}}\n",
+	"template-data: {k: {a: 1}}\npackages:\n  example.com/w/a:\n    config:\n      all: true\n      template-data: {k: \"scalar-below-map\"}\n",
+	"_anchors: {k: 1}\npackages:\n  example.com/w/a:\n    config:\n      all: true\n      _anchors: {k: {m: 2}}\n",
+	"template-data: {k: {a: 1}}\npackages:\n  example.com/w/a:\n    config: {all: true}\n    interfaces:\n      Store:\n        configs:\n          - template-data: {k: 7}\n          - template-data: {k: {a: [1]}}\n",
 	"log-level: shout\npackages:\n  example.com/w/a: {config: {all: true}}\n", "build-tags: [a, b]\npackages:\n  example.com/w/a: {config: {all: true}}\n",
 }
 
